@@ -417,8 +417,12 @@ func (osObj *VirtualOS) findMount(path string) (*Mount, string, bool) {
 	}
 	if match != nil {
 		relPath := strings.TrimPrefix(path, match.Target)
-		if relPath == "" {
-			relPath = "/"
+		// The source is handed a path from its own root, whatever the mount
+		// point: trimming the mount point "/" (or one that ends in a slash)
+		// leaves a relative path, which a source may resolve against the
+		// working directory of the process
+		if !strings.HasPrefix(relPath, "/") {
+			relPath = "/" + relPath
 		}
 		return match, relPath, true
 	}
